@@ -5,16 +5,18 @@ import (
 )
 
 func init() {
-	register("C07", checkC07, "parsing of else-if chains into the tree; truth values of application-defined types beyond the kinds listed; unknown-identifier tolerance is decided under C05.R2")
+	register("C07", checkC07, "parsing of else-if chains into the tree beyond the order of the clauses (R4); truth values of application-defined types beyond the kinds listed; unknown-identifier tolerance is decided under C05.R2")
 }
 
 func checkC07(r *Run) {
 	r.Rule("R1", "one predicate: every branch decision of the prefix/if/else-if/infix evaluators that depends on an evaluated template value obtains it through the truthiness predicate (licensed: the nil-operand dispatch and the operand type switch of the infix evaluator)", 1)
 	r.Rule("R2", "falsy set of the predicate: nil, false, \"\", empty template.HTML, nil pointer -- nothing more, nothing less; comparisons only in single-type arms", 1)
 	r.Rule("R3", "branch selection: main block only on the truthy edge and returned at once; else-ifs visited by one ascending range, condition and block of the same element, first truthy returns; else block only after the loop", 1)
+	r.Rule("R4", "the parser puts the else-if clauses into the tree in source order: the chain is only ever extended at its end by the clause just parsed, and nothing else adds to it between parsing a clause and adding it", 2)
 	truthyUseRuleSSA(r, "R1")
 	falsySetRuleSSA(r, "R2")
 	ifBranchRuleSSA(r, "R3")
+	elseIfOrderRule(r, "R4")
 }
 
 // ---- R2 ---------------------------------------------------------------------
